@@ -1003,10 +1003,13 @@ class OpaqueEnumParsable(Vector):
     @classmethod
     def _parse(cls, parsable):
         opaque, parsed_length = super(OpaqueEnumParsable, cls)._parse(parsable)
-        code = six.ensure_text(
-            b''.join([six.int2byte(opaque_item) for opaque_item in opaque]),
-            cls.get_encoding()
-        )
+        try:
+            code = six.ensure_text(
+                b''.join([six.int2byte(opaque_item) for opaque_item in opaque]),
+                cls.get_encoding()
+            )
+        except UnicodeDecodeError as e:
+            six.raise_from(InvalidValue(bytes(bytearray(opaque)), cls), e)
 
         try:
             parsed_object = next(iter([
